@@ -505,4 +505,41 @@ theorem C06_typed_history (cs : List Call) (hp : PlainRun theLTables theBTables 
   rw [mem_iff, mem_finish] at hi
   exact run_all theBTables _ cs BState.new (fun j hj => absurd hj (mem_new j)) he i hi
 
+/-- the words of the assembled module are 32-bit words as soon as the emitted instructions' words are and the id counter fits 32 bits -/
+theorem assemble_wordsOk (cs : List Call) (hp : PlainRun theLTables theBTables BState.new cs)
+    (he : EmitsP theBTables (fun i => InstT0 theTables i ∧ WordsOk (assembleInst i)) BState.new cs)
+    (hid : (BState.run theBTables BState.new cs).1.nextId < 4294967296) :
+    WordsOk (Rspirv.Props.C15.assemble assembleInst ((BState.run theBTables BState.new cs).1.finish theBTables)) := by
+  have hh := run_hdr theLTables theBTables default_version_normal cs BState.new trivial hp
+  obtain ⟨hd, e1, e2, e3, e4, e5, e6⟩ := finish_hdr theBTables default_version_normal _ hh
+  rw [Rspirv.Props.C15.C15_assemble, e1]
+  intro w hw
+  rcases List.mem_append.1 hw with hw | hw
+  · have hasm : Header.asm Rspirv.Generated.Traversals.asmHeader hd = [hd.magic, hd.version, hd.generator, hd.bound, hd.reserved] := by
+      have : Rspirv.Generated.Traversals.asmHeader = [0, 1, 2, 3, 4] := by decide
+      rw [this]; rfl
+    simp only [Option.map_some, Option.getD_some, hasm, List.mem_cons, List.not_mem_nil, or_false] at hw
+    have hmag : theBTables.magic < 4294967296 := by decide +kernel
+    unfold VersionNormal at e5
+    rcases hw with rfl | rfl | rfl | rfl | rfl
+    · rw [e2]; exact hmag
+    · omega
+    · rw [e3]; decide
+    · rw [e6]; exact hid
+    · rw [e4]; decide
+  · obtain ⟨i, hi, hwi⟩ := List.mem_flatMap.1 hw
+    rw [mem_iff, mem_finish] at hi
+    exact (run_all theBTables _ cs BState.new (fun j hj => absurd hj (mem_new j)) he i hi).2 w hwi
+
+/-- **C06 for histories of typed calls, hypotheses on the history only.** -/
+theorem C06_typed_history' (cs : List Call) (hp : PlainRun theLTables theBTables BState.new cs)
+    (hc : (BState.run theBTables BState.new cs).1.selFn = none)
+    (he : EmitsP theBTables (fun i => InstT0 theTables i ∧ WordsOk (assembleInst i)) BState.new cs)
+    (hid : (BState.run theBTables BState.new cs).1.nextId < 4294967296)
+    (hsmall : 4 * (Rspirv.Props.C15.assemble assembleInst ((BState.run theBTables BState.new cs).1.finish theBTables)).length < 2 ^ 63) :
+    loadBytes theTables theLTables
+        ((Rspirv.Props.C15.assemble assembleInst ((BState.run theBTables BState.new cs).1.finish theBTables)).flatMap Spec.wordBytes) =
+      .ok ((BState.run theBTables BState.new cs).1.finish theBTables) :=
+  C06_typed_history cs hp hc he (assemble_wordsOk cs hp he hid) hsmall
+
 end Rspirv.Props.C06Emit
